@@ -1603,7 +1603,7 @@ def run(ck):
     st = regen.status().get("tdata_enums", {})
     ck.notes["tdata_enums"] = "regenerated" if st.get("ok") else "not-translatable: %s" % st.get("not_translatable")
     tm = ck.notes.setdefault("timing_s", {})
-    ck.build_proofs()
+    ck.build_proofs(extra_targets=["theories/Spec/VerifyGenProofs.vo"])
     tm["build_proofs"] = round(time.time() - t0, 1)
     try:
         impl = Impl()
